@@ -60,3 +60,9 @@ def require(cond, name):
 def next_call(target):
     """scripted result of a callee replaced by its contract"""
     return _next('call:' + target)
+
+
+def same_entries(new, old, skip):
+    """frame condition on a table: every entry except index `skip` keeps its None-ness"""
+    return len(new) == len(old) and all((new[i] is None) == (old[i] is None)
+                                        for i in range(len(new)) if i != skip)
